@@ -29,7 +29,7 @@ RULE = ("Kernel and circuit are built from ONE description object in either orde
         "receiving either the description's own identifier lists or copies. " +
         "grid: every ordered list of 1..2 distinct round counts from {0,1,2,3} x all 4 computational data states, distance 2, "
         "chain description (64 experiments, exhaustive for that grid) plus every single-count list [0]..[8] at distance 3 "
-        "(thorough tier). sampled: Hypothesis-generated experiments = ordered list of 1..4 distinct counts from 0..6 (0 and 1 "
+        "(thorough tier). long_blocks: fixed lists with blocks of 9-30 (thorough: 64) rounds at distance 2 (chain) and 3 (Surface-17 sub-chain). sampled: Hypothesis-generated experiments = ordered list of 1..4 distinct counts from 0..6 (0 and 1 "
         "over-weighted) x distance 2..4 x computational data-qubit states x optional computational ancilla states x "
         "description from_chain / from_initial_state / from_connectivity(contiguous sub-chain of the Surface-17 "
         "Repetition9Code, either direction, optionally with an explicit qubit-to-channel map of distinct indices 0..16) x refocusing on/off. sampled_large (thorough tier only): lists of 1..5 counts "
@@ -282,9 +282,20 @@ def items_grid(tier):
             yield {"distance": 3, "rounds": [r], "data_states": "010", "ancilla_states": None, "desc": "chain", "refocus": True}
 
 
+def items_long_blocks(tier):
+    """Blocks of many rounds: each block is flattened into one graph that is about 19 relation layers deep per round."""
+    lists = [[9], [3, 9, 1], [12, 0], [2, 16]] if tier == "quick" else [[9], [3, 9, 1], [12, 0], [2, 16], [30], [1, 24, 7], [64]]
+    for rounds in lists:
+        for d in (2, 3):
+            yield {"distance": d, "rounds": rounds, "data_states": "01"[:1] * 0 + "".join("01"[i % 2] for i in range(d)),
+                   "ancilla_states": None, "desc": "chain" if d == 2 else "surface17", "offset": 1, "reverse": False,
+                   "refocus": True, "order": "circuit_first"}
+
+
 def parts():
     return [
         Part("grid", body, items=items_grid, exhaustive=True),
+        Part("long_blocks", body, items=items_long_blocks, exhaustive=True),
         Part("sampled", body, strategy=strat_sampled, quick=150, thorough=400),
         Part("sampled_large", body, strategy=strat_sampled_large, quick=0, thorough=200),
     ]
